@@ -1728,6 +1728,13 @@ impl Property for C14 {
             Ok(m) => m,
             Err(why) => return Outcome::Discard(why),
         };
+        // every alias is replayed (and budgeted) by the reader even when the target shares the
+        // allocation: a heavily shared DAG whose tree expansion runs into the default node
+        // budget (250 000 YAML nodes, ~10 per allocation) is not a document the default options
+        // accept - found by the thorough tier's `random-large` family
+        if !c.kind.is_rec() && expansion_size(c) > 10_000 {
+            return Outcome::Discard("expansion beyond the default budget");
+        }
         let r = match c.kind {
             Kind::RcDag => rc_dag::run(c, &m),
             Kind::ArcDag => arc_dag::run(c, &m),
